@@ -8,6 +8,15 @@ S2C  TLC enumerates operand tuples (series x series, series x scalar, triples, s
      add_ .. max_, df_sum, df_mean, df_count in every calling form and compared with ==.
 C2S  seeded random tuples of 2..4 operands (<= 30 timestamps, frames with 1-3 columns, scalars on
      either side, exact value families) validated by spec/Trace_Ops.tla.
+SESSIONS (spec/OpsSession.tla, MC_OpsSession.tla, Trace_OpsSession.tla): a heap of caller-owned operands and
+     containers (lists / tuples holding the operands by identity), histories of calls in every calling form (the
+     arguments are named on the heap: list alone, list x operand, operand x list, list x list, the same list twice,
+     the same object twice) interleaved with the caller's own actions (append, pop, overwrite a cell).  Law: a call
+     changes nothing on the heap and its result is the reduction of what the caller holds at the time of the call.
+     MC: the mechanism (as_list(a) + as_list(b)) against the law on every history; the variant that extends the
+     caller's list in place must violate PoolUntouched.  S2C: TLC's histories replayed on ONE set of real objects,
+     the heap (members by identity, operands by value) looked at again after every step.  C2S: random histories of
+     3..6 steps judged by Trace_OpsSession, which threads its own heap through the history.
 Values cross the boundary exactly (float.as_integer_ratio); NaN is a tag.
 """
 import json
@@ -160,6 +169,20 @@ def rand_operand(rng, values, T, prev, kinds, qname='q'):
     return {"k": "f", "t": idx, "c": cols, "v": [[cellf() for _ in idx] for _ in cols]}
 
 
+def pick_cols(rng, op, xs):
+    """a column policy under which the statement pins the result down for these operands (None: neither)"""
+    nops = len(xs)
+    multi = [tuple(x['c']) for x in xs if x['k'] == 'f' and len(x['c']) > 1]
+    pinned = op in ('add', 'sub', 'mul', 'div') or op in AGGS or len(set(multi)) <= 1
+    common = set.intersection(*[set(m) for m in multi]) if multi else set()
+    # 'ij' needs a shared column; with three or more operands at least two (a frame reduced to one column
+    # travels on as a pseudo-series and the statement does not say how the next operand meets it)
+    shared = not multi or len(common) >= (2 if nops >= 3 and len(multi) >= 2 else 1)
+    if not pinned and not shared:
+        return None
+    return rng.choice(['ij', 'oj']) if pinned and shared else 'ij' if shared else 'oj'
+
+
 def c2s(ctx, report, n):
     obs = []
     rng = ctx.rng
@@ -178,15 +201,9 @@ def c2s(ctx, report, n):
             xs[rng.randrange(nops)] = rand_operand(rng, values, T, prev, ['s'])
         if op == 'pow':
             xs[1] = exponent(rng, xs[1])
-        multi = [tuple(x['c']) for x in xs if x['k'] == 'f' and len(x['c']) > 1]
-        pinned = op in ('add', 'sub', 'mul', 'div') or op in AGGS or len(set(multi)) <= 1
-        common = set.intersection(*[set(m) for m in multi]) if multi else set()
-        # 'ij' needs a shared column; with three or more operands at least two (a frame reduced to one column
-        # travels on as a pseudo-series and the statement does not say how the next operand meets it)
-        shared = not multi or len(common) >= (2 if nops >= 3 and len(multi) >= 2 else 1)
-        if not pinned and not shared:
+        cols = pick_cols(rng, op, xs)
+        if cols is None:
             continue                        # neither column policy is pinned down for this tuple
-        cols = rng.choice(['ij', 'oj']) if pinned and shared else 'ij' if shared else 'oj'
         join = 'oj' if op in AGGS else rng.choice(['ij', 'oj'])
         form = rng.choice(forms_for(op, nops))
         obs.append(call(op, xs, form, join, cols, rng=rng))
@@ -216,9 +233,313 @@ def exponent(rng, x):
     return y
 
 
+# ---- sessions (spec/OpsSession.tla): a heap of caller-owned operands and containers, a history of calls in every ----
+# ---- calling form and of the caller's own actions; the heap is looked at again after every step                  ----
+CUTS = ['sub', 'div']
+CMPS = ['gt', 'ge', 'lt', 'le']
+
+
+def seq(x):
+    """TLC prints an empty sequence as [] and an empty function as {}"""
+    return list(x) if x else []
+
+
+def sess_build(heap, rng=None):
+    """the caller's objects: every operand once, the containers holding these very objects"""
+    reg = Registry()
+    objs = [build(x, reg, rng, ints=(rng is None)) for x in seq(heap['objs'])]
+    lists = [(list if l['k'] == 'l' else tuple)(objs[i - 1] for i in seq(l['ids'])) for l in seq(heap['lists'])]
+    return objs, lists
+
+
+def sess_view(objs, lists):
+    """the heap as its owner sees it: operands by value, containers by the identity of their members (0: not one of mine)"""
+    def ident(m):
+        for n, o in enumerate(objs):
+            if m is o:
+                return n + 1
+        return 0
+    kind = lambda l: 'l' if type(l) is list else 't' if type(l) is tuple else 'other:' + type(l).__name__
+    return {'objs': [proj(o) for o in objs], 'lists': [{'k': kind(l), 'ids': [ident(m) for m in l]} for l in lists]}
+
+
+def sess_step(s, objs, lists):
+    """one step on the caller's objects -> (encoded outcome of a call | None, the heap afterwards)"""
+    import pyg_base as pg
+    out = None
+    if s['act'] == 'call':
+        c = s['c']
+        arg = lambda r: objs[r['i'] - 1] if r['r'] == 'o' else lists[r['i'] - 1]
+        args = (arg(c['a']),) if c['b']['r'] == 'none' else (arg(c['a']), arg(c['b']))
+        if c['op'] in AGGS:
+            f = {'sum': pg.df_sum, 'mean': pg.df_mean, 'count': pg.df_count}[c['op']]
+            kw = dict(columns=c['cols'])
+        else:
+            f = getattr(pg, c['op'] + '_')
+            kw = dict(join=c['join'], columns=c['cols'])
+        err, res = outcome(lambda: f(*args, **kw))
+        out = err if err is not None else {'kind': 'val', 'v': proj(res)}
+    elif s['act'] == 'append':
+        lists[s['l'] - 1].append(objs[s['o'] - 1])
+    elif s['act'] == 'pop':
+        lists[s['l'] - 1].pop()
+    elif s['act'] == 'poke':
+        objs[s['o'] - 1].iloc[0] = float('nan')
+    else:
+        raise ValueError(s)
+    return out, sess_view(objs, lists)
+
+
+def spelled(s):
+    ref = lambda r: {'o': 'o%d', 'l': 'L%d', 'none': ''}[r['r']] % ((r['i'],) if r['r'] != 'none' else ())
+    if s['act'] != 'call':
+        return '%s(%s)' % (s['act'], ','.join(x for x in ['L%d' % s['l'] if s['l'] else '', 'o%d' % s['o'] if s['o'] else ''] if x))
+    c = s['c']
+    name = ('df_' + c['op']) if c['op'] in AGGS else c['op'] + '_'
+    return '%s(%s)' % (name, ','.join(x for x in [ref(c['a']), ref(c['b'])] if x))
+
+
+def sess_case(heap, steps, k, out=None):
+    """the failing step k (0-based) of a history as a matchable case"""
+    s = steps[k]
+    c = s['c']
+    h = heap
+    for t in steps[:k]:
+        h = caller_view(h, t)
+    ids = [i for r in (c['a'], c['b']) for i in ([r['i']] if r['r'] == 'o' else seq(h['lists'][r['i'] - 1]['ids']) if r['r'] == 'l' else [])] if s['act'] == 'call' else []
+    xs = [h['objs'][i - 1] for i in ids]
+    classes = [shape_class(x) for x in xs]
+    ts = sorted(set(cl for cl in classes if cl != 'c'))
+    return {'op': c['op'] if s['act'] == 'call' else s['act'], 'form': 'session:' + c['a']['r'] + '-' + c['b']['r'], 'join': c['join'], 'cols': c['cols'],
+            'shapes': ','.join(classes), 'mixed_shapes': len(ts) > 1, 'raised': (out or {}).get('cls', ''), 'step': k + 1,
+            'history': [spelled(t) for t in steps], 'heap': heap, 'steps': steps}
+
+
+def caller_view(h, s):
+    """the caller's own bookkeeping of what it did to its lists (rendering of a recorded history, not a judgement)"""
+    if s['act'] == 'call':
+        return h
+    h = json.loads(json.dumps(h))
+    if s['act'] == 'append':
+        h['lists'][s['l'] - 1]['ids'] = seq(h['lists'][s['l'] - 1]['ids']) + [s['o']]
+    elif s['act'] == 'pop':
+        h['lists'][s['l'] - 1]['ids'] = seq(h['lists'][s['l'] - 1]['ids'])[:-1]
+    elif s['act'] == 'poke':
+        h['objs'][s['o'] - 1]['v'][0] = ["nan", 0]
+    return h
+
+
+def norm_heap(h):
+    return {'objs': seq(h['objs']), 'lists': [{'k': l['k'], 'ids': seq(l['ids'])} for l in seq(h['lists'])]}
+
+
+def s2c_sessions(ctx, report, hists, budget, fam):
+    """TLC's histories replayed on ONE set of real objects each; after every step the heap must be the one TLC printed
+    and the outcome of a call one of those TLC printed"""
+    hists = sorted(hists, key=lambda x: json.dumps(x, sort_keys=True))
+    if budget and len(hists) > budget:
+        hists = ctx.rng.sample(hists, budget)
+        ctx.exhaustive = False
+    for n, x in enumerate(hists):
+        steps = [h['s'] for h in x['hist']]
+        objs, lists = sess_build(x['heap'])
+        ok = True
+        for k, h in enumerate(x['hist']):
+            out, view = sess_step(h['s'], objs, lists)
+            ctx.evals += 1
+            want_heap = norm_heap(h['h'])
+            want = [collapse(w) for w in seq(h['want'])]
+            if view['lists'] != want_heap['lists']:
+                report('container_changed', sess_case(x['heap'], steps, k, out), {'expected': want_heap['lists'], 'observed': view['lists']})
+            elif view['objs'] != want_heap['objs']:
+                report('operand_changed', sess_case(x['heap'], steps, k, out), {'observed': view['objs']})
+            elif out is None:
+                continue
+            elif out['kind'] == 'exc':
+                report('raised', sess_case(x['heap'], steps, k, out), {'expected_one_of': h['want'], 'observed': out})
+            elif collapse(out['v']) not in want:
+                report('result', sess_case(x['heap'], steps, k, out), {'expected_one_of': h['want'], 'observed': out['v']})
+            else:
+                continue
+            ok = False
+            break                     # what follows a step the specification does not explain is not judged
+        if ok:
+            ctx.note(('s2c-session', fam, json.dumps([x['env'], x['heap'], steps], sort_keys=True)))
+        if n % 1499 == 0:
+            ctx.sample({'s2c_session': {'heap': x['heap'], 'history': [spelled(t) for t in steps], 'last_step_expects': x['hist'][-1]['want']}})
+        ctx.traces += 1
+
+
+def rand_heap(rng):
+    """3..5 operands of one exact value family, 2..3 containers that share members"""
+    fam = rng.choice(['arith', 'arith', 'agg'])
+    values = [v for v in FAMILY[fam][0] if not isinstance(v, list)]
+    T = rng.choice([4, 8, 30])
+    mix = rng.random()
+    kinds = ['s'] if mix < 0.3 else ['s', 's', 'c'] if mix < 0.5 else ['f'] if mix < 0.7 else ['f', 'f', 's'] if mix < 0.85 else ['q', 'q', 's', 'c']
+    prev, objs = [], []
+    for _ in range(rng.choice([3, 4, 4, 5])):
+        x = rand_operand(rng, values, T, prev, kinds, 'q')
+        if x['k'] == 'f' and len(x['c']) > 1:         # the frames of a session share the columns a and b
+            cols = ['a', 'b'] + sorted(rng.sample(['c', 'd'], rng.choice([0, 1, 1, 2])))
+            x = {"k": "f", "t": x['t'], "c": cols, "v": [[["nan", 0] if rng.random() < 0.2 else val(rng.choice(values)) for _ in x['t']] for _ in cols]}
+        if x['k'] == 'c' and any(o['k'] == 'c' for o in objs):
+            x = rand_operand(rng, values, T, prev, ['s'])      # one scalar object per heap: its identity is its value
+        objs.append(x)
+    if all(o['k'] == 'c' for o in objs):
+        objs[0] = rand_operand(rng, values, T, prev, ['s'])
+    lists = []
+    for _ in range(rng.choice([2, 3, 3])):
+        size = rng.choice([0, 1, 2, 2, 2, 3])
+        lists.append({'k': 'l' if rng.random() < 0.8 else 't', 'ids': [rng.randint(1, len(objs)) for _ in range(size)]})
+    return fam, {'objs': objs, 'lists': lists}
+
+
+def rand_call(rng, fam, h):
+    """a call on the heap h in some calling form, inside the domain of the statement as far as the driver can tell
+    (the trace specification decides: a step it finds outside the domain is not judged); None: try again"""
+    ops = {'arith': ['add', 'sub', 'mul', 'div', 'min', 'max', 'sum', 'count'] + CMPS[:2],
+           'agg': ['add', 'sub', 'mul', 'min', 'max', 'sum', 'mean', 'count'] + CMPS[2:]}[fam]
+    op = rng.choice(ops)
+    refs = [{'i': i + 1, 'r': 'o'} for i in range(len(h['objs']))] + [{'i': i + 1, 'r': 'l'} for i in range(len(h['lists']))] * 2
+    a = rng.choice(refs)
+    b = {'i': 0, 'r': 'none'} if op not in CUTS + CMPS and a['r'] == 'l' and rng.random() < 0.3 else rng.choice(refs)
+    ids = [i for r in (a, b) for i in ([r['i']] if r['r'] == 'o' else h['lists'][r['i'] - 1]['ids'] if r['r'] == 'l' else [])]
+    xs = [h['objs'][i - 1] for i in ids]
+    if not 2 <= len(xs) <= 4 or all(x['k'] == 'c' for x in xs):
+        return None
+    if op in CMPS and (a['r'] != 'o' or b['r'] != 'o'):
+        return None
+    if op in CUTS:
+        for r in (a, b):
+            if r['r'] == 'l' and (h['lists'][r['i'] - 1]['k'] != 'l' or not h['lists'][r['i'] - 1]['ids']):
+                return None
+        if op == 'div' and len(xs) > 2 and any(x['k'] == 'c' and x['v'] == val(0) for x in xs[1:]):
+            return None
+    if op in AGGS and len(set(shape_class(x) for x in xs) - {'c'}) > 1:
+        return None                     # recorded finding C08-aggregate-mixed-shapes: watched by the single-call families
+    cols = pick_cols(rng, op, xs)
+    if cols is None:
+        return None
+    return {'act': 'call', 'c': {'a': a, 'b': b, 'cols': cols, 'join': 'oj' if op in AGGS else rng.choice(['ij', 'oj']), 'op': op}, 'l': 0, 'o': 0}
+
+
+def rand_caller_step(rng, h):
+    pylists = [i + 1 for i, l in enumerate(h['lists']) if l['k'] == 'l']
+    kind = rng.choice(['append', 'append', 'pop', 'poke'])
+    if kind == 'append' and pylists:
+        return {'act': 'append', 'c': NOCALL, 'l': rng.choice(pylists), 'o': rng.randint(1, len(h['objs']))}
+    if kind == 'pop':
+        full = [i for i in pylists if h['lists'][i - 1]['ids']]
+        if full:
+            return {'act': 'pop', 'c': NOCALL, 'l': rng.choice(full), 'o': 0}
+    if kind == 'poke':
+        ok = [i + 1 for i, o in enumerate(h['objs']) if o['k'] == 's' and o['v'] and o['v'][0][0] != 'nan']
+        if ok:
+            return {'act': 'poke', 'c': NOCALL, 'l': 0, 'o': rng.choice(ok)}
+    return None
+
+
+NOCALL = {'a': {'i': 0, 'r': 'none'}, 'b': {'i': 0, 'r': 'none'}, 'cols': 'ij', 'join': 'ij', 'op': ''}
+
+
+def c2s_sessions(ctx, report, n):
+    """random histories of 3..6 steps on random heaps, recorded from the real code and judged by Trace_OpsSession"""
+    from harness.core import Machinery
+    rng = ctx.rng
+    obs = []
+    for _ in range(n):
+        fam, heap = rand_heap(rng)
+        objs, lists = sess_build(heap, rng)
+        h, steps = heap, []
+        for _k in range(rng.choice([3, 4, 5, 6])):
+            s = None
+            if steps and steps[-1]['s']['act'] == 'call' and rng.random() < 0.3:
+                s = rand_caller_step(rng, h)
+            if s is None and steps and rng.random() < (0.6 if steps[-1]['s']['act'] != 'call' else 0.2):
+                s = [t['s'] for t in steps if t['s']['act'] == 'call'][-1]          # the same call once more (the caller may have changed its objects since)
+                s = s if rand_ok_again(h, s) else None
+            for _try in range(20):
+                if s is not None:
+                    break
+                s = rand_call(rng, fam, h)
+            if s is None:
+                break
+            out, view = sess_step(s, objs, lists)
+            ctx.evals += 1
+            steps.append({'s': s, 'view': view, 'out': out if out is not None else {'kind': 'none'}})
+            h = caller_view(h, s)
+        if steps:
+            obs.append({'heap': heap, 'steps': steps})
+    bad = ctx.validate('Trace_OpsSession', obs, cfg='Trace_OpsSession.cfg')
+    outside = 0
+    for ln, verdict in bad:
+        o = obs[ln - 1]
+        k, clause = verdict.split(':', 1)
+        k = int(k) - 1
+        if clause == 'outside_domain':          # the specification decides what the statement speaks about: not judged
+            outside += 1
+            continue
+        report(clause, sess_case(o['heap'], [t['s'] for t in o['steps']], k, o['steps'][k]['out']),
+               {'observed': o['steps'][k]['out'], 'heap_after_step': o['steps'][k]['view']})
+    if outside * 10 > len(obs):
+        raise Machinery('vacuous: %d of %d recorded sessions contain a step outside the domain of OpsSession!SessDomain' % (outside, len(obs)))
+    ctx.extra['sessions_cut_at_a_step_outside_the_domain'] = outside
+    rejected = {ln for ln, _ in bad}
+    for k, o in enumerate(obs):
+        if k + 1 not in rejected and len(o['steps']) >= 2:
+            ctx.note(('c2s-session', k))
+    ctx.sample({'c2s_session': {'heap': obs[len(obs) // 2]['heap'], 'history': [spelled(t['s']) for t in obs[len(obs) // 2]['steps']]}})
+
+
+def rand_ok_again(h, s):
+    """the lists the call names still hold 2..4 operands together (the caller may have changed them since)"""
+    c = s['c']
+    ids = [i for r in (c['a'], c['b']) for i in ([r['i']] if r['r'] == 'o' else h['lists'][r['i'] - 1]['ids'] if r['r'] == 'l' else [])]
+    return 2 <= len(ids) <= 4 and all(r['r'] != 'l' or h['lists'][r['i'] - 1]['ids'] for r in (c['a'], c['b']) if c['op'] in CUTS)
+
+
+def sessions(ctx, report):
+    """histories that share the caller's objects (OpsSession.tla / MC_OpsSession.tla / Trace_OpsSession.tla)"""
+    from harness.core import Machinery
+    # one TLC run checks the clauses on every history of two calls AND prints them for the replay
+    snaps = ctx.generate('MC_OpsSession', 'MC_OpsSession_quick.cfg')
+    taken = set()
+    for x in snaps:
+        for h in x['hist']:
+            c = h['s']['c']
+            taken.add('%s:%s-%s%s' % ('cut' if c['op'] in CUTS else 'agg' if c['op'] in AGGS else 'fold', c['a']['r'], c['b']['r'],
+                                      '-same' if c['a'] == c['b'] else ''))
+    for need in ('fold:l-none', 'fold:l-o', 'fold:o-l', 'fold:l-l', 'fold:l-l-same', 'fold:o-o-same', 'agg:l-none', 'agg:l-o', 'agg:o-l', 'agg:l-l',
+                 'cut:l-o', 'cut:o-l', 'cut:l-l'):
+        if need not in taken:
+            raise Machinery('vacuous: no generated history of MC_OpsSession_quick.cfg contains a call of the form %s' % need)
+    if ctx.quick:
+        s2c_sessions(ctx, report, snaps, 1200, 'two-calls')
+        c2s_sessions(ctx, report, 300)
+    else:
+        s2c_sessions(ctx, report, snaps, 0, 'two-calls')
+        ctx.mc('MC_OpsSession', 'MC_OpsSession_thorough.cfg')
+        # the model can express what it forbids: with dfs = as_list(a); dfs += as_list(b) the caller's list does not survive add_(L, x)
+        ctx.mc('MC_OpsSession', 'MC_OpsSession_extend.cfg', must_fail='PoolUntouched', coverage=False)
+        s2c_sessions(ctx, report, ctx.generate('MC_OpsSession', 'MC_OpsSession_gen2t.cfg'), 6000, 'two-calls-all-heaps')
+        s2c_sessions(ctx, report, ctx.generate('MC_OpsSession', 'MC_OpsSession_gen3.cfg'), 8000, 'call-caller-probe')
+        s2c_sessions(ctx, report, ctx.generate('MC_OpsSession', 'MC_OpsSession_sim.cfg', simulate=300, depth=7, seed=ctx.seed + 1, workers=1), 0, 'simulated')
+        c2s_sessions(ctx, report, 3000)
+
+
 def replay(ctx, body):
     """./check C08 --replay <file>: re-run one recorded case and let Trace_Ops judge it"""
     c = body['case']
+    if 'steps' in c:                       # a session: the whole history again, on one set of objects
+        objs, lists = sess_build(c['heap'])
+        steps = []
+        for st in c['steps']:
+            out, view = sess_step(st, objs, lists)
+            steps.append({'s': st, 'view': view, 'out': out if out is not None else {'kind': 'none'}})
+        bad = ctx.validate('Trace_OpsSession', [{'heap': c['heap'], 'steps': steps}], cfg='Trace_OpsSession.cfg')
+        print(json.dumps({'history': c['history'], 'observed': [t['out'] for t in steps], 'verdict': bad[0][1] if bad else 'explained by the specification'})[:3000])
+        return 1 if bad else 0
     o = call(c['op'], c['xs'], c['form'], c['join'], c['cols'])
     bad = ctx.validate('Trace_Ops', [o])
     print(json.dumps({'observed': o['out'], 'verdict': bad[0][1] if bad else 'explained by the specification'})[:3000])
@@ -228,7 +549,10 @@ def replay(ctx, body):
 def run(ctx):
     ctx.rule = ('S2C: TLC-enumerated operand tuples x operator x index policy x column policy replayed through the public operators in '
                 'every calling form, == with the expected result; C2S: random tuples of 2..4 operands validated by Trace_Ops. '
-                'Non-trivial = the expected result is neither empty nor equal to one of the operands; distinct by (operands, operator, policies).')
+                'Non-trivial = the expected result is neither empty nor equal to one of the operands; distinct by (operands, operator, policies). '
+                'Sessions: TLC-enumerated (thorough: also TLC-simulated) histories of calls and caller actions on one heap of real objects, '
+                'after every step heap == the heap TLC printed and outcome in the outcomes TLC printed; random histories validated by '
+                'Trace_OpsSession. A session counts when every step was explained; distinct by (policies, heap, history).')
     report = Reporter(ctx)
     ctx.exhaustive = True
     if ctx.quick:
@@ -236,12 +560,14 @@ def run(ctx):
         s2c(ctx, report, ctx.generate('MC_Ops', 'MC_Ops_gen_quick.cfg'), 7000)
         s2c(ctx, report, ctx.generate('MC_Ops', 'MC_Ops_gen_frames.cfg'), 3000)
         c2s(ctx, report, 2500)
+        sessions(ctx, report)
     else:
         ctx.mc('MC_Ops', 'MC_Ops_thorough.cfg')
         s2c(ctx, report, ctx.generate('MC_Ops', 'MC_Ops_gen_quick.cfg'), 60000)
         s2c(ctx, report, ctx.generate('MC_Ops', 'MC_Ops_gen_frames.cfg'), 40000)
         s2c(ctx, report, ctx.generate('MC_Ops', 'MC_Ops_gen_thorough.cfg'), 80000)
         c2s(ctx, report, 30000)
+        sessions(ctx, report)
     ctx.extra['violation_signatures'] = report.summary()
     ctx.assumptions += [
         'values are drawn from families on which every operation is exact in binary floating point (0 and +-powers of two for + - * / '
@@ -251,7 +577,13 @@ def run(ctx):
         "column policy 'ij' is checked when the multi-column frames share at least one column (with none there is no cell to speak of; "
         "the code then returns an empty Series, as presync's docstring documents); with three or more operands, when they share at least two "
         "(a frame reduced to a single column travels on as a pseudo-series)",
-        'lists of operands are checked for add_, mul_, min_, max_ and the aggregates (sub_/div_ of lists are not pinned by the statement)',
+        'lists of operands: add_, mul_, min_, max_ and the aggregates reduce the members of both arguments left to right; for sub_/div_ '
+        'with a list the statement has two readings (one row reduced left to right / a list stands for its sum resp. product) and both '
+        'are accepted (OpsSession!CutListReading; the same data for a single left operand unless a series is broadcast over frames '
+        "with different columns under 'oj': MC_OpsSession!RightListPinned); tuples are lists of operands for the folds and aggregates only",
+        'sessions: 2..4 operands per call, the frames of a heap share the columns a and b, one scalar object per heap; aggregates of '
+        'mixed shapes (recorded finding C08-aggregate-mixed-shapes) are left to the single-call families; the pair of two different '
+        'objects without a container is left to MC_Ops; pow_ is not part of the sessions',
         'a one-column frame is a series whose header is ignored (presync docstring; reading PseudoSeries); the one-column frames of a '
         'tuple share their header (with different headers the df_sync based min_/max_/df_sum/df_mean/df_count return all-NaN columns)',
         'no fill method (method=None); df_std excluded (not exact)',
